@@ -20,6 +20,7 @@ import (
 	"fmt"
 	"math/big"
 	"os"
+	"path/filepath"
 	"strings"
 
 	"github.com/ontio/ontology/common"
@@ -76,6 +77,7 @@ func Run(c *hx.Ctx) {
 			}
 		}
 		w.dirtyProbes()
+		w.drainProbes()
 	}
 	n := c.N(130, 1200)
 	if replay {
@@ -149,6 +151,9 @@ func (w *world) runBlock(in *blockInput, txs []*types.Transaction, report bool) 
 				}
 			}
 		}
+	}
+	if os.Getenv("C05_CHILD") != "" { // tell the parent that the timed part starts now
+		os.WriteFile(filepath.Join(c.OutDir, "child.ready"), []byte("1"), 0o644)
 	}
 	obs := make([]*txObs, len(txs))
 	wpanic, wmsg := hx.Recover(func() { err = walk(w, blk, obs) })
@@ -288,6 +293,7 @@ func (w *world) oracle(in *blockInput, blk *types.Block, obs []*txObs, notifies 
 		}
 		fee := new(big.Int).Mul(new(big.Int).SetUint64(n.GasConsumed), scale)
 		class := "tx:" + d.Kind
+		w.feeRule(in, blk, tx, o, n)
 		if d.Kind == "composite" {
 			class += ":" + d.Code
 			for _, st := range strings.Split(d.Code, ",") {
@@ -614,4 +620,62 @@ func (w *world) emitPanicCase(in *blockInput, blk *types.Block, obs []*txObs, pa
 		gasTable = fmt.Sprintf("(Some %d)", v.(uint64))
 	}
 	w.c.Case(fmt.Sprintf("CPanic %d %d %s %s\n  %s %s", config.DefConfig.P2PNode.NetworkId, blk.Header.Height, gasTable, coqKV(st), hx.CoqList(txs), hx.CoqBool(panicked)), in)
+}
+
+// feeRule: what a charged transaction whose script ran owes, decided from the property and the
+// observed execution outcome alone (exact arithmetic, not the model): with cost = max(gas used,
+// 20000) * GasPrice and the payer's balance AFTER the execution,
+//   - script ok and balance after >= cost : SUCCESS, pays min(cost rounded up to the fee unit, balance after);
+//   - otherwise                          : FAIL, pays min(rounded cost, balance BEFORE) - the
+//     transaction's own effects are dropped, so the fee comes out of the pre-execution balance.
+func (w *world) feeRule(in *blockInput, blk *types.Block, tx *types.Transaction, o *txObs, n *event.ExecuteNotify) {
+	c := w.c
+	p := o.Probe
+	if p == nil || p.Internal || tx.GasPrice == 0 || bytes.Equal(tx.Payload.(*payload.InvokeCode).Code, ninit.COMMIT_DPOS_BYTES) {
+		return
+	}
+	old, ok1 := balanceU64(o.PayerRaw)
+	after := o.PayerRaw
+	if v, ok := lookup(p.Cache, ongKey(tx.Payer)); ok {
+		after = v
+	}
+	newBal, ok2 := balanceU64(after)
+	if !ok1 || !ok2 {
+		return
+	}
+	cost, rounded := owed(tx, p, blk.Header.Height)
+	canPay := p.Ok && new(big.Int).SetUint64(newBal).Cmp(cost) >= 0
+	signed := false
+	for _, a := range tx.GetSignatureAddresses() {
+		signed = signed || a == tx.Payer
+	}
+	got := new(big.Int).SetUint64(n.GasConsumed)
+	if n.State == event.CONTRACT_STATE_SUCCESS {
+		if !canPay || got.Cmp(cost) < 0 {
+			c.Count("fee-rule:violated")
+			c.Fail("fee:success-underpaid", "a transaction whose payer cannot pay max(gas used, 20000)*GasPrice after its own execution fails: its effects are dropped and the fee is taken from the pre-execution balance", in,
+				fmt.Sprintf("State 1, GasConsumed %d, payer balance after execution %d (before %d)", n.GasConsumed, newBal, old),
+				fmt.Sprintf("State 0, GasConsumed %s (cost %s)", minBig(rounded, old), cost))
+			return
+		}
+		if want := minBig(rounded, newBal); got.Cmp(want) != 0 {
+			c.Fail("fee:amount", "a successful transaction pays its gas cost rounded up to the fee unit, at most what the payer has", in, got.String(), want.String())
+		}
+		c.Count("fee-rule:success-paid")
+		return
+	}
+	if canPay {
+		if signed { // the charge on the transaction cache can only fail for an unsigned payer
+			c.Fail("fee:amount", "a transaction that ran successfully and can pay its cost succeeds", in, fmt.Sprint("State 0, GasConsumed ", n.GasConsumed), "State 1")
+		}
+		return
+	}
+	if p.Ok {
+		c.Count("fee-rule:failed-cannot-pay-after-execution")
+	}
+	want := minBig(rounded, old)
+	ongSupply := new(big.Int).SetUint64(1000000000000000000)
+	if signed && want.Cmp(ongSupply) <= 0 && got.Cmp(want) != 0 {
+		c.Fail("fee:amount", "a failed transaction pays its gas cost rounded up to the fee unit, at most the pre-execution balance", in, got.String(), want.String())
+	}
 }
